@@ -746,6 +746,37 @@ theorem reentrant_found_is_hit {c : Cache K V} (hi : Inv c) (P : K → OmProg K 
   rw [Cache.getitem_hit hr]
   exact ⟨rfl, rfl, rfl, rfl⟩
 
+/-- with a re-entrant on_miss, too, on_miss is called exactly for lookups of absent keys: a call that is not
+    a lookup and a lookup that finds its key add nothing to the log of on_miss calls (the latter is one hit, no
+    miss); a lookup of an absent key enters on_miss with THAT key first — whatever the callback does then
+    (nested lookups included) only extends the log — and counts at least the one miss -/
+theorem reentrant_on_miss_called_iff_absent {c : Cache K V} (hi : Inv c) (P : K → OmProg K V) (fuel : Nat) (op : Op K V) :
+    match op.lookupKey with
+    | none => (Cache.mach.rstep P fuel c op).1.omLog = c.omLog ∧ (Cache.mach.rstep P fuel c op).1.miss = c.miss ∧
+              (Cache.mach.rstep P fuel c op).1.hit = c.hit
+    | some k =>
+      ((lookup k c.d).isSome → (Cache.mach.rstep P fuel c op).1.omLog = c.omLog ∧
+          (Cache.mach.rstep P fuel c op).1.hit = c.hit + 1 ∧ (Cache.mach.rstep P fuel c op).1.miss = c.miss) ∧
+      (lookup k c.d = none → (∃ l, (Cache.mach.rstep P fuel c op).1.omLog = c.omLog ++ k :: l) ∧
+          c.miss + 1 ≤ (Cache.mach.rstep P fuel c op).1.miss ∧ c.hit ≤ (Cache.mach.rstep P fuel c op).1.hit) := by
+  cases hop : op.lookupKey with
+  | none =>
+    have hs : Cache.mach.rstep P fuel c op = step c op := by
+      cases op <;> first | rfl | simp [Op.lookupKey] at hop
+    have := step_nonlookup c op hop
+    simp only [hs]
+    exact ⟨this.2.2.2, this.2.1, this.1⟩
+  | some k =>
+    obtain ⟨h1, h2, h3⟩ := Cache.rstep_lookup_log P fuel c hop
+    simp only [h1, h2, h3]
+    refine ⟨fun hs => ?_, fun hk => ?_⟩
+    · obtain ⟨v, hv⟩ := Option.isSome_iff_exists.1 hs
+      have hr : lookup k c.ring = some v := by rw [← hi.sync.agree]; exact hv
+      rw [Cache.rget_found P fuel hr, Cache.getitem_hit hr]
+      exact ⟨rfl, rfl, rfl⟩
+    · have hr : lookup k c.ring = none := by rw [← hi.sync.agree]; exact hk
+      exact Cache.rget_absent_log P fuel hr
+
 /-- the value finally cached is the one on_miss RETURNED: when the program of on_miss(k) runs to its end
     (state `body`) and returns `v`, the lookup answers `v` and `body[k] = v` is executed by the full
     `__setitem__` — whether the program stored `k` itself (re-assignment of the present key: one link,
